@@ -344,6 +344,16 @@ func genC17(t *rapid.T) c17Plan {
 				resps = map[string]any{}
 				root["responses"] = resps
 			}
+			defs, _ := root["definitions"].(map[string]any)
+			if defs == nil {
+				defs = map[string]any{}
+				root["definitions"] = defs
+			}
+			// schemas that say which dialect they are written in (`$schema` has an encoder of its own too)
+			for i, n := 0, 1+gen.Uniform(t, "dialects", 3); i < n; i++ {
+				defs[fmt.Sprintf("c17-dialect-%d", i)] = map[string]any{"$schema": "http://json-schema.org/draft-04/schema#", "title": fmt.Sprintf("D%d", i),
+					"properties": map[string]any{"n": map[string]any{"$schema": "http://json-schema.org/draft-04/schema#", "type": "integer"}}}
+			}
 			resps["c17-hdr"] = map[string]any{"description": "with array headers", "headers": map[string]any{"X-List": map[string]any{"type": "array", "items": items}, "X-Rate": map[string]any{"type": "integer"}}}
 			g.Docs[g.Root] = string(mustJSON(root))
 		}
